@@ -35,6 +35,30 @@ Definition vi_err {T} {NT : Num T} (d : ddp T) (v0 : list T) (k : nat) : T :=
 Definition borderline (tol : option float) (err : float) : bool :=
   match tol with None => false
   | Some t => Qle_bool (Qabs (f2q err - f2q t)) ((1 # 1000000000) * (1 + Qabs (f2q t))) end.
+Definition near_actions (tol : Q) (d : ddp Q) (v : list Q) (s : nat) : list nat :=
+  let vl := vals d v in let lo := getn (d_indptr d) s in let hi := getn (d_indptr d) (S s) in
+  match gete vl (seg_argmax vl lo hi) with
+  | Fin mx => flat_map (fun j => match gete vl j with
+                                 | Fin x => if Qle_bool (mx - x) (tol * (1 + Qabs mx)) then [getn (d_aidx d) j] else []
+                                 | NegInf => [] end) (seq lo (hi - lo))
+  | NegInf => []
+  end.
+Fixpoint cart (l : list (list nat)) : list (list nat) :=
+  match l with [] => [[]] | x :: r => flat_map (fun a => map (cons a) (cart r)) x end.
+Definition near_policies (tol : Q) (d : ddp Q) (v : list Q) : list (list nat) :=
+  firstn 64 (cart (map (near_actions tol d v) (seq 0 (d_n d)))).
+Fixpoint pi_front (tol : Q) (d : ddp Q) (front : list (list nat)) (k : nat) : list (list nat) :=
+  match k with
+  | O => front
+  | S k' => pi_front tol d (firstn 64 (flat_map (fun sg => match evaluate_policy d sg with
+                                                          | Some w => near_policies tol d w | None => [] end) front)) k'
+  end.
+Definition pi_tie_ok (tol : Q) (d : ddp Q) (vi : option (list Q)) (k : nat) (v : list Q) (sg : list nat) : bool :=
+  let v0 := match vi with Some x => x | None => R_max d end in
+  existsb (fun s => match evaluate_policy d s with
+                    | Some w => Qs_close tol w v && near_greedy tol d w sg
+                    | None => false end)
+          (pi_front tol d (near_policies tol d v0) (k - 1)).
 Definition same_pair (d : ddp float) (i j : nat) : bool :=
   match gete (d_R d) i, gete (d_R d) j with
   | Fin x, Fin y => PrimFloat.eqb x y && Fs_eqb (getrow (d_Q d) i) (getrow (d_Q d) j)
@@ -106,7 +130,7 @@ def fopt(v):
 def run(ctx):
     thorough = ctx.tier == "thorough"
     rng = ctx.rng
-    ctx.proofs(["C01/Props.v", "C01/PropsConsts.v"])
+    ctx.proofs(["C01/Props.v", "C01/PropsConsts.v", "C01/PropsLP.v"])
     warnings.filterwarnings("ignore")
     from quantecon.markov import DiscreteDP
 
@@ -197,7 +221,7 @@ def run(ctx):
                     res = ddp.solve(method="lp", v_init=None if vinit is None else np.array([float(x) for x in vinit]), max_iter=mi)
                     cap = ddp.max_iter * inst.n if mi is None else mi
                     inp = dict(inp0, method="lp", v_init=vinit, max_iter=cap)
-                    lp_cases.append(tup(fterm, fopt(vinit), natlit(cap), flist([float(x) for x in res.v]),
+                    lp_cases.append(tup(fterm, form.coq, qopt(vinit), fopt(vinit), natlit(cap), flist([float(x) for x in res.v]),
                                         natlist([int(x) for x in res.sigma]), natlit(res.num_iter)))
                     lp_meta.append(dict(inp, impl={"v": res.v, "sigma": res.sigma, "num_iter": res.num_iter}))
                     if mi is not None:
@@ -277,13 +301,19 @@ def run(ctx):
 
     DQ, DF = "cres (ddp Q)", "cres (ddp float)"
 
-    def two_phase(name, ctype, strict, lenient, cases, meta, label, chunk, excluded=None, excluded_note=""):
+    def two_phase(name, ctype, strict, lenient, cases, meta, label, chunk, excluded=None, excluded_note="", certified=None,
+                  certified_note=""):
         bad = ctx.coq_check(name, IMPORTS, ctype, strict, cases, chunk=chunk, preamble=PREAMBLE)
         if bad:
             sub = [cases[i] for i in bad]
             bad2 = ctx.coq_check(name + "_lenient", IMPORTS, ctype, lenient, sub, chunk=chunk, preamble=PREAMBLE)
             ctx.count("%s: iteration count / tie-breaking differs (tie or borderline stopping test), value still agrees" % name, len(bad) - len(bad2))
             still = [bad[j] for j in bad2]
+            if still and certified is not None:
+                sub = [cases[i] for i in still]
+                bad3 = ctx.coq_check(name + "_tie_certified", IMPORTS, ctype, certified, sub, chunk=chunk, preamble=PREAMBLE)
+                ctx.count("%s: difference certified as a float tie (%s)" % (name, certified_note), len(still) - len(bad3))
+                still = [still[j] for j in bad3]
             if still and excluded is not None:
                 sub = [cases[i] for i in still]
                 keep = ctx.coq_check(name + "_excluded", IMPORTS, ctype, "fun c => negb (%s c)" % excluded, sub, chunk=chunk, preamble=PREAMBLE)
@@ -300,7 +330,12 @@ def run(ctx):
                  "| Some (mv, msg, mk, conv) => Qs_close %s mv v && nats_eqb msg sg && Nat.eqb mk k | None => false end)" % TOLQ)
     pi_len = ("fun c => let '(cd, vi, cap, v, sg, k) := c in with_ok cd (fun d => match policy_iteration d vi cap with "
               "| Some (mv, msg, mk, conv) => conv && Qs_close %s mv v && near_greedy %s d mv sg | None => false end)" % (TOLQ, TOLQ))
-    two_phase("policy_iteration", pi_t, pi_strict, pi_len, pi_cases, pi_meta, "C01.Model.policy_iteration (exact) vs DiscreteDP.solve('pi')", 25)
+    # certified float-tie path: the returned (v, sigma) is reached by SOME run of the exact model in which every greedy
+    # step may pick any action whose exact value is within 1e-9 of the state's maximum (the only freedom rounding has):
+    # v is the exact value of a policy evaluated at iteration num_iter of such a run, sigma a near-maximiser for it
+    pi_cert = ("fun c => let '(cd, vi, cap, v, sg, k) := c in with_ok cd (fun d => pi_tie_ok %s d vi k v sg)" % TOLQ)
+    two_phase("policy_iteration", pi_t, pi_strict, pi_len, pi_cases, pi_meta, "C01.Model.policy_iteration (exact) vs DiscreteDP.solve('pi')", 25,
+              certified=pi_cert, certified_note="(v, sigma) lies on a run of the exact model that breaks exact near-ties differently")
 
     vi_t = DF + " * " + DQ + " * option (list float) * float * nat * list Q * list nat * nat"
     vi_strict = ("fun c => let '(cf, cq, vi, eps, cap, v, sg, k) := c in with_ok cf (fun d => with_ok cq (fun dq => "
@@ -313,12 +348,20 @@ def run(ctx):
 
     # lp: PrimFloat instance of C01/ModelLP.v (Base/Pivot + C04 solve_tableau); the Numba kernels are bit-identical to
     # the same operations in source order, so v, sigma and num_iter are compared exactly
-    lp_t = DF + " * option (list float) * nat * list float * list nat * nat"
-    lp_ok = ("fun c => let '(cf, vi, cap, v, sg, k) := c in with_ok cf (fun d => match linprog_simplex_ddp d vi cap optsF with "
+    lp_t = DF + " * " + DQ + " * option (list Q) * option (list float) * nat * list float * list nat * nat"
+    lp_ok = ("fun c => let '(cf, cq, viq, vi, cap, v, sg, k) := c in with_ok cf (fun d => match linprog_simplex_ddp d vi cap optsF with "
              "| Some (su, mk, mv, msg) => Nat.eqb mk k && Fs_eqb mv v && nats_eqb msg sg | None => false end)")
     bad = ctx.coq_check("linprog_simplex", IMPORTS_LP, lp_t, lp_ok, lp_cases, chunk=60, preamble=PREAMBLE_LP)
     for i in bad:
         ctx.mismatch("C01.ModelLP.linprog_simplex_ddp (PrimFloat, bit-exact) vs DiscreteDP.solve('lp')", lp_meta[i], lp_meta[i].get("impl"))
+    # measured, not assumed: on how many runs does the separation check hold (C01_lp_tolerance_irrelevant then makes the
+    # run with the source tolerances equal to the tolerance-0 run of C01_lp_optimal), and does the exact run succeed
+    nosep = ctx.coq_check("lp_sep_ok", IMPORTS_LP + "\nFrom QE Require Import C04.Sep C04.ProofsSep2 C01.ProofsLP2.", lp_t,
+                          "fun c => let '(cf, cq, viq, vi, cap, v, sg, k) := c in with_ok cq (fun d => lp_sep d viq cap opts_src)",
+                          lp_cases, chunk=60, preamble=PREAMBLE_LP)
+    ctx.count("lp:sep_ok (tolerances cannot change a decision of the exact run)", len(lp_cases) - len(nosep))
+    ctx.count("lp:sep_ok fails", len(nosep))
+    ctx.corr["lp_sep_ok"]["mismatches"] = 0
 
     viq_t = DQ + " * option (list Q) * Q * nat * list Q * list nat * nat"
     viq_strict = ("fun c => let '(cq, vi, eps, cap, v, sg, k) := c in with_ok cq (fun d => "
